@@ -288,6 +288,14 @@ func c08Gen(r *rand.Rand, n int, tier string) []string {
 			tree = append(tree, "ep:"+hxs("m")+":"+hxs("c")+":"+nt("vchild"))
 			tree = append(tree, "ep:"+hxs(nodes[1])+":"+hxs("m")+":"+nt("device"))
 		}
+		if r.Intn(4) == 0 {
+			// a child that was first placed under the unrelated node, then under the client, then deleted at its OLDER place:
+			// writes to it still concern the client, through the newer, live edge
+			tomb1 := fmt.Sprintf("%s,-,%s,-,%d,0,-,-", hxs("tombstone"), valStr(1), tick())
+			tree = append(tree, "ep:"+hxs("k0")+":"+hxs("x")+":"+nt("vchild"), "ep:"+hxs("k0")+":"+hxs("c")+":"+nt("vchild"), "ep:"+hxs("k0")+":"+hxs("x")+":"+tomb1)
+			nodes = append(nodes, "k0")
+			parentOf["k0"] = "c"
+		}
 		// initial configuration values (before the client starts)
 		if r.Intn(2) == 0 {
 			tree = append(tree, "np:"+hxs("c")+":"+fmt.Sprintf("%s,-,0,%s,%d,0,-,-", hxs("description"), hxs("first"), tick()))
